@@ -150,6 +150,7 @@ def run(ck, ctx):
             kws = e.data.get("kwargs", [])
             ck.ob("R10.3", "from_sequence only sets the partitioning", set(kws) <= {"partition_size", "npartitions"},
                   e.node, fnn, f"keywords {kws}")
+        perms = []       # permutations (index arrays) the batch is evaluated in
         for e in eff["dask-from-sequence"] + eff["seq-map"]:
             seq = e.node
             what = "from_sequence" if e.kind.startswith("dask") else "the sequential map"
@@ -157,7 +158,13 @@ def run(ck, ctx):
                   g2.show(seq, 2))
             if seq.op == "Zip":
                 ok = len(seq.args) == 5 and all(a is ins[k] for a, k in zip(seq.args, order))
-                ck.ob("R10.3", "the zipped sequences are the batch call's per-event arguments, unmodified and in order",
+                if not ok and len(seq.args) == 5:
+                    pm = _common_permutation(g2, seq.args, [ins[k] for k in order])
+                    if pm is not None:
+                        perms.append(pm)
+                        ok = True
+                ck.ob("R10.3", "the zipped sequences are the batch call's per-event arguments in order (unmodified, or "
+                      "all five gathered by one permutation that is undone on the results)",
                       ok, seq, fnn, ", ".join(g2.show(a, 1) for a in seq.args))
         # every kernel invocation reachable from the batch call
         for ri, run_ in enumerate(runs):
@@ -166,7 +173,10 @@ def run(ck, ctx):
             kparams = [a.arg for a in run_[0].node.args.args][1:]
             for k, (kp, bp) in enumerate(zip(kparams[:5], order)):
                 v = loc.get(kp)
-                ok = v is not None and v.op == "IterElem" and v.args[0] is ins[bp]
+                ok = v is not None and v.op == "IterElem" and (v.args[0] is ins[bp] or any(
+                    v.args[0].op == "Subscript" and _strip_array(v.args[0].args[0]) is ins[bp] and
+                    g2.same(v.args[0].args[1], pm)
+                    for pm in perms))
                 ck.ob("R10.3", f"kernel parameter {kp} receives the element of batch argument {bp}{tag}", ok,
                       v if v is not None else r.value, fnn, g2.show(v, 2) if v is not None else "missing")
             cf = loc.get(kparams[5]) if len(kparams) > 5 else None
@@ -182,9 +192,16 @@ def run(ck, ctx):
             n_coll = 0
             for pc, leaf in leaves:
                 lf = _strip_array(leaf)
-                if lf.op == "ListOf" and any(g2.same(lf.args[0], I2.snapshot(I2.elem(kr, k), r.st)) for kr in krets):
+                if lf.op == "ListOf" and not perms and any(g2.same(lf.args[0], I2.snapshot(I2.elem(kr, k), r.st))
+                                                           for kr in krets):
                     n_coll += 1
                     continue
+                if perms:
+                    inner = _unpermuted(g2, lf, perms)
+                    if inner is not None and inner.op == "ListOf" and any(
+                            g2.same(inner.args[0], I2.snapshot(I2.elem(kr, k), r.st)) for kr in krets):
+                        n_coll += 1
+                        continue
                 if _input_free(lf, ins, cloud) and any(_emptiness_test(c, ins) for c, pol in pc):
                     continue
                 bad.append((pc, leaf))
@@ -258,3 +275,69 @@ def _emptiness_test(c, ins):
     """the condition mentions len(<batch argument>) - the guard of the empty-batch exit"""
     inputs = set(id(v) for v in ins.values())
     return any(x.op == "Len" and id(x.args[0]) in inputs for x in walk([c]))
+
+
+PERMUTATION_SOURCES = ("numpy.argsort", "numpy.lexsort", "numpy.random.permutation")
+
+
+def _common_permutation(g, seqs, args):
+    """the index array pm if every sequence is args[k][pm] for one pm that is a permutation by construction"""
+    pm = None
+    for a, want in zip(seqs, args):
+        if not (a.op == "Subscript" and _strip_array(a.args[0]) is want):
+            return None
+        if pm is None:
+            pm = a.args[1]
+        elif not g.same(pm, a.args[1]):
+            return None
+    if pm is not None and pm.op == "Call" and pm.args and pm.args[0].op == "Ext" and \
+            pm.args[0].attr in PERMUTATION_SOURCES:
+        return pm
+    return None
+
+
+def _unpermuted(g, lf, perms):
+    """x if lf restores input order of x evaluated in permuted order: x[argsort(pm)], or out[pm] = x on a fresh
+    array; None otherwise (any other inverse, e.g. searchsorted on the sorted keys, is wrong for ties)"""
+    if lf.op == "Subscript":
+        inv = lf.args[1]
+        if inv.op == "Call" and inv.args and inv.args[0].op == "Ext" and inv.args[0].attr == "numpy.argsort" and \
+                len(inv.args) >= 2 and any(g.same(inv.args[1], pm) for pm in perms):
+            return _strip_array(lf.args[0])
+        return None
+    if lf.op == "Scatter" and lf.attr is None and any(g.same(lf.args[1], pm) for pm in perms):
+        base = lf.args[0]
+        if base.op == "Call" and base.args and base.args[0].op == "Ext" and base.args[0].attr.split(".")[-1] in (
+                "empty", "empty_like", "zeros", "zeros_like"):
+            return _strip_array(lf.args[2])
+    return None
+
+
+def permutation_round_trips(g, outs):
+    """ids of the permutation / inverse-permutation nodes of every proven round trip in the cone of `outs`:
+    a batch evaluated as f(arg[pm]) per element whose collected results are put back with [argsort(pm)] or
+    out[pm] = results computes the same per-event values in the same positions as without the permutation"""
+    exempt = set()
+    for n in walk(list(outs)):
+        cands = []
+        if n.op == "Subscript" and n.args[1].op == "Call" and n.args[1].args and n.args[1].args[0].op == "Ext" and \
+                n.args[1].args[0].attr == "numpy.argsort" and len(n.args[1].args) >= 2:
+            cands.append((n.args[1].args[1], _strip_array(n.args[0]), n.args[1]))
+        if n.op == "Scatter" and n.attr is None:
+            cands.append((n.args[1], _strip_array(n.args[2]), None))
+        for pm, inner, inv in cands:
+            if not (pm.op == "Call" and pm.args and pm.args[0].op == "Ext" and pm.args[0].attr in PERMUTATION_SOURCES):
+                continue
+            if inner.op != "ListOf":
+                continue
+            bag = (inner.extra or {}).get("bag")
+            seq = bag.args[0].args[0] if bag is not None and bag.op == "BagMap" and bag.args[0].op == "Bag" else \
+                (inner.extra or {}).get("seq")
+            if seq is None or seq.op != "Zip":
+                continue
+            if all(a.op == "Subscript" and g.same(a.args[1], pm) for a in seq.args):
+                exempt.add(pm.id)
+                exempt |= {x.id for x in walk([seq]) if g.same(x, pm)}
+                if inv is not None:
+                    exempt.add(inv.id)
+    return exempt
